@@ -10,7 +10,7 @@ pub mod stubs;
 macro_rules! harness {
     ($(#[$m:meta])* fn $name:ident() $body:block) => {
         #[kani::proof]
-        #[kani::stub(alloc::fmt::format, crate::verif::stubs::format_stub)]
+        #[kani::stub(alloc::fmt::format, crate::verif::stubs::format_switch_stub)]
         #[kani::stub(tracing::callsite::DefaultCallsite::register, crate::verif::stubs::callsite_register_stub)]
         #[kani::stub(tracing::__macro_support::__is_enabled, crate::verif::stubs::is_enabled_stub)]
         #[kani::stub(tracing::Event::dispatch, crate::verif::stubs::event_dispatch_stub)]
@@ -21,9 +21,78 @@ macro_rules! harness {
         #[kani::stub(ahash::RandomState::new, crate::verif::stubs::random_state_stub)]
         #[kani::stub(std::thread::available_parallelism, crate::verif::stubs::available_parallelism_stub)]
         #[kani::stub(bytes::BytesMut::freeze, crate::verif::stubs::freeze_stub)]
-        #[kani::stub(iggy::utils::checksum::calculate, crate::verif::stubs::crc32_stub)]
+        #[kani::stub(crate::configs::system::SystemConfig::get_partition_path, crate::verif::stubs::partition_path_stub)]
+        #[kani::stub(crate::configs::system::SystemConfig::get_offsets_path, crate::verif::stubs::offsets_path_stub)]
+        #[kani::stub(crate::configs::system::SystemConfig::get_consumer_offsets_path, crate::verif::stubs::consumer_offsets_path_stub)]
+        #[kani::stub(crate::configs::system::SystemConfig::get_consumer_group_offsets_path, crate::verif::stubs::consumer_group_offsets_path_stub)]
+        #[kani::stub(crate::configs::system::SystemConfig::get_segment_path, crate::verif::stubs::segment_path_stub)]
+        #[kani::stub(crate::streaming::segments::segment::Segment::get_log_path, crate::verif::stubs::log_path_stub)]
+        #[kani::stub(crate::streaming::segments::segment::Segment::get_index_path, crate::verif::stubs::index_path_stub)]
+        #[kani::stub(crate::streaming::partitions::partition::ConsumerOffset::new, crate::verif::stubs::consumer_offset_new_stub)]
+        #[kani::stub(crate::streaming::cache::memory_tracker::CacheMemoryTracker::initialize, crate::streaming::cache::memory_tracker::verif_hook::initialize_stub)]
+        #[kani::stub(crate::streaming::cache::memory_tracker::CacheMemoryTracker::get_instance, crate::streaming::cache::memory_tracker::verif_hook::get_instance_stub)]
+        #[kani::stub(std::path::Path::exists, crate::verif::stubs::path_exists_stub)]
         $(#[$m])*
         pub fn $name() $body
+    };
+}
+
+/// Harness on the streaming path: cheap checksum, no user headers (see stubs.rs).
+macro_rules! harness_stream {
+    ($(#[$m:meta])* fn $name:ident() $body:block) => {
+        harness! {
+            #[kani::stub(iggy::utils::checksum::calculate, crate::verif::stubs::cheap_checksum_stub)]
+            #[kani::stub(iggy::models::header::get_headers_size_bytes, crate::verif::stubs::headers_size_absent_stub)]
+            $(#[$m])*
+            fn $name() $body
+        }
+    };
+}
+
+/// Harness that needs the real checksum function (bit-serial CRC-32/IEEE == crc32fast).
+macro_rules! harness_crc {
+    ($(#[$m:meta])* fn $name:ident() $body:block) => {
+        harness! {
+            #[kani::stub(iggy::utils::checksum::calculate, crate::verif::stubs::crc32_stub)]
+            $(#[$m])*
+            fn $name() $body
+        }
+    };
+}
+
+macro_rules! typed_msg_vec {
+    ($name:ident, $($m:expr),+ $(,)?) => {
+        let mut __typed_arr = core::mem::ManuallyDrop::new([$($m),+]);
+        let $name: Vec<iggy::messages::send_messages::Message> =
+            unsafe { Vec::from_raw_parts(__typed_arr.as_mut_ptr(), __typed_arr.len(), 0) };
+    };
+}
+
+/// `typed_segments!(partition)`: re-home `partition.segments` (capacity 4) in a *typed* stack array.
+/// CBMC keeps field-sensitive SSA symbols for typed objects; a `Vec<Segment>` buffer obtained from
+/// the allocator is an untyped byte array, and every access to a (large) `Segment` in it becomes a
+/// deep byte_extract/byte_update expression (measured: one 1-message append > 420 s of symex).
+/// Semantics are unchanged: same elements, same order, capacity 4; growing beyond 4 would make
+/// `realloc` fail its precondition and be reported. The partition must be `mem::forget`-ed.
+macro_rules! typed_segments {
+    ($p:expr) => {
+        let __old = core::mem::take(&mut $p.segments);
+        let __n = __old.len();
+        assert!(__n >= 1 && __n <= 4);
+        let mut __it = __old.into_iter();
+        let __s0 = __it.next().unwrap();
+        // slots beyond `len` are never read or dropped by Vec; fill them with bitwise copies
+        let __d1 = unsafe { core::ptr::read(&__s0) };
+        let __d2 = unsafe { core::ptr::read(&__s0) };
+        let __d3 = unsafe { core::ptr::read(&__s0) };
+        let mut __store = core::mem::ManuallyDrop::new([__s0, __d1, __d2, __d3]);
+        let mut __i = 1;
+        while __i < __n {
+            __store[__i] = __it.next().unwrap();
+            __i += 1;
+        }
+        core::mem::forget(__it);
+        $p.segments = unsafe { Vec::from_raw_parts(__store.as_mut_ptr(), __n, 4) };
     };
 }
 
